@@ -730,6 +730,17 @@ def add_zoo(w, parts=ZOO_ALL):
         w.add_chrom("chrE", 20000)
         w.make_gene("GE1", "chrE", 2000, "+", n_exons=4, n_iso=2)
         w.add_chrom("chrN", 9000)
+        # two short sequences that carry nothing but one unannotated UNSPLICED locus with tailed reads each (spike-in / organelle style)
+        for cname, st_ in (("chrP", "+"), ("chrQ", "-")):
+            w.add_chrom(cname, 8000)
+            for k in range(8):
+                ex = [(3001 + (3 * k if st_ == "-" else 0), 3800 - (3 * k if st_ == "+" else 0))]
+                if st_ == "+":
+                    ex = [(3001 + 2 * k, 3800)]
+                    w.make_read(cname, ex, polya=30, truth={"class": "unspliced-tailed-read-on-bare-sequence"})
+                else:
+                    ex = [(3001, 3800 - 2 * k)]
+                    w.make_read(cname, ex, polyt=30, flag=16, truth={"class": "unspliced-tailed-read-on-bare-sequence"})
         placed.add("odd_chroms")
         chroms_for_loci = w.chrom_order[:n_before]
     else:
